@@ -112,7 +112,8 @@ def r19_1(ctx):
         lists = [k for k, v in names.items() if isinstance(v, ListV) and not v.items]
         ctx.instance(con0 + ":prologue", sample={"ints": ints, "prev": prevs, "lists": lists})
         if len(ints) != 2 or len(prevs) != 1:
-            ctx.violation(con0 + ":prologue-shape", f.loc(), f"{cls} encoder prologue does not start with two run markers at -1 and one previous-state holder (found ints={ints}, prev={prevs})")
+            # another way of keeping the run state: the per-cell table below does not apply; R19.1b decides this encoder as a black box
+            ctx.note(f"{cls} encoder does not keep its run in two markers and a previous-state holder (ints={ints}, prev={prevs}): cell table skipped, see R19.1b")
             continue
         pv = names[prevs[0]]
         pv_name = pv.single() if isinstance(pv, EnumSet) else None
@@ -209,6 +210,59 @@ def r19_1(ctx):
             if ta != tb:
                 diff = [k for k in ta if ta.get(k) != tb.get(k)][:3]
                 ctx.violation(f"sibling:{a}!={b}", ctx.repo.method(b, "get_time_list_for_gannt_chart").loc(), f"the Gantt encoders of {a} and {b} differ in cells {diff}")
+    ctx.end()
+
+
+def expected_intervals(log, lmap):
+    """Maximal runs of each reported state: {kind: [(start, end)]} (end inclusive)."""
+    out = {k: [] for k in lmap.values()}
+    i = 0
+    while i < len(log):
+        j = i
+        while j + 1 < len(log) and log[j + 1] == log[i]:
+            j += 1
+        if log[i] in lmap:
+            out[lmap[log[i]]].append((i, j))
+        i = j + 1
+    return out
+
+
+def r19_1b(ctx):
+    """The encoders as black boxes: every state log up to a small length is pushed through the analyser's interpreter (the
+    margin stays a symbol) and the returned interval lists must be exactly the maximal runs of each reported state.  This does
+    not depend on how the encoder keeps its run state (markers, helper closures, tables)."""
+    ctx.begin("R19.1b", "encoders on every log up to length 3 (4 in the thorough tier): intervals == maximal runs, in (ready, working[, absence]) order", floor=4)
+    maxlen = 4 if ctx.thorough else 3
+    m = Poly.sym("m")
+    for cls, enum, lmap, init_prev in ENCODERS:
+        f = ctx.repo.method(cls, "get_time_list_for_gannt_chart")
+        members = [x for x in ctx.repo.enums[enum] if ctx.thorough or x not in ("WORKING_ADDITIONALLY", "REMOVED")]
+        kinds = ["ready", "working", "absence"][: (3 if "absence" in lmap.values() else 2)]
+        n = 0
+        bad = None
+        for L in range(0, maxlen + 1):
+            for log in itertools.product(members, repeat=L):
+                I = mk_interp(ctx, max_paths=200)
+                outs = I.run_function(f, bind={"finish_margin": m}, heap={("self", "state_record_list"): ListV([E(enum, x) for x in log], True, "list")})
+                n += 1
+                exp = expected_intervals(log, lmap)
+                for st, ex in outs:
+                    r = ex[1] if ex is not None and ex[0] == "return" else None
+                    if not (isinstance(r, ListV) and len(r.items) == len(kinds) and all(isinstance(x, ListV) for x in r.items)):
+                        raise AnalysisError(f"R19.1b: result of {f.qualname} on log {list(log)} is not determined: {r!r}")
+                    for kind, lst in zip(kinds, r.items):
+                        got = []
+                        for it in lst.items:
+                            if not (isinstance(it, ListV) and len(it.items) == 2 and all(isinstance(x, Poly) for x in it.items)):
+                                raise AnalysisError(f"R19.1b: interval {it!r} returned by {f.qualname} on log {list(log)} is not determined")
+                            got.append((it.items[0], it.items[1]))
+                        want = [(Poly.const(a), Poly.const(b - a) + m) for a, b in exp[kind]]
+                        if got != want and bad is None:
+                            bad = (list(log), kind, [(repr(a), repr(b)) for a, b in got], [(repr(a), repr(b)) for a, b in want])
+        ctx.instance(construct(f, "bounded"), cells=n, sample={"logs": n, "max_length": maxlen})
+        if bad:
+            log, kind, got, want = bad
+            ctx.violation(construct(f, f"runs:{kind}"), f.loc(), f"{cls} encoder on the log {log}: the {kind} list is {got}, the maximal runs are {want} (start, length with margin m)")
     ctx.end()
 
 
@@ -339,3 +393,4 @@ def run(ctx):
     r19_2(ctx)
     r19_3(ctx)
     r19_4(ctx)
+    r19_1b(ctx)
